@@ -980,7 +980,10 @@ def rust_tests(files, ex, out):
             defines[mod] = set(re.findall(r"\bpub (?:struct|enum) (%s)" % ID, text))
     for fname in sorted(ex.get("tests") or {}):
         mod = fname.rsplit("/", 1)[-1][:-3]
-        file_uses = set(re.findall(r"^use crate::(%s)::\*;" % ID, files.get(fname, ""), re.M))
+        # the file's own imports: the header only (the `use` lines of the test modules are printed
+        # at column 0 as well, and they are private to their module)
+        header = re.split(r"^(?:#\[|pub |impl |mod )", files.get(fname, ""), 1, flags=re.M)[0]
+        file_uses = set(re.findall(r"^use crate::(%s)::\*;" % ID, header, re.M))
         for tm in ex["tests"][fname]:
             T = {"name": "%s::%s" % (mod, tm["mod"]), "file": fname, "packet": None, "sample": ["dflt"], "fixups": [], "issues": []}
             I = T["issues"]
